@@ -180,6 +180,9 @@ pub struct Opts {
     pub runs_override: Option<u64>,
     pub workers: usize,
     pub verif_root: PathBuf,
+    /// where replays and evidence are written (VERIF_OUT; default: verif_root). Experiments and self-tests write
+    /// elsewhere while still reading known_findings.json and the regression replays from verif_root.
+    pub out_root: PathBuf,
     pub write_evidence: bool,
     /// print a hash over all per-run (shape, violation) pairs: used by the determinism self-test
     pub print_digest: bool,
@@ -201,6 +204,7 @@ impl Opts {
             seed,
             runs_override,
             workers,
+            out_root: std::env::var("VERIF_OUT").map(PathBuf::from).unwrap_or_else(|_| verif_root.clone()),
             verif_root,
             write_evidence: std::env::var("VERIF_NO_EVIDENCE").is_err(),
             print_digest: std::env::var("VERIF_DIGEST").is_ok(),
@@ -507,7 +511,7 @@ pub fn run_check<P: Property>(p: &P, opts: &Opts) -> i32 {
                     case,
                     trace: vec![],
                 };
-                let path = replay_path(&opts.verif_root, id, opts.seed, run, "hang");
+                let path = replay_path(&opts.out_root, id, opts.seed, run, "hang");
                 let _ = write_replay(&path, &rf);
                 println!("VIOLATION property={id} replay={}", path.display());
                 println!("  invariant={id}.hang (wall-clock watchdog; not minimised)");
@@ -587,7 +591,7 @@ pub fn run_check<P: Property>(p: &P, opts: &Opts) -> i32 {
             continue;
         }
         let tag = short_tag(&mv.signature);
-        let path = replay_path(&opts.verif_root, id, opts.seed, *run, &tag);
+        let path = replay_path(&opts.out_root, id, opts.seed, *run, &tag);
         let rf = ReplayFile {
             property: id.to_string(),
             invariant: mv.invariant.clone(),
@@ -666,7 +670,7 @@ pub fn run_check<P: Property>(p: &P, opts: &Opts) -> i32 {
             "wall_s": wall,
             "violations": n_viol + if regression_exit == EXIT_OK { 0 } else { 1 },
         });
-        let dir = opts.verif_root.join("evidence");
+        let dir = opts.out_root.join("evidence");
         let _ = std::fs::create_dir_all(&dir);
         let path = dir.join(format!("{id}.json"));
         if let Err(e) = std::fs::write(&path, serde_json::to_string_pretty(&ev).unwrap() + "\n") {
